@@ -643,8 +643,9 @@ class Judge:
         for sw in self.switches:
             alt, _ = self.refs(method, ps, host, **{k: True for k in sw})
             if real_key in {r.key() for r in alt.values()}:
-                return True, ("resolve:" + "+".join(SWITCH_MECH[x] for x in sw), prim), prim
-        return True, (f"resolve:{dk}:unexplained", prim), prim
+                # explained by these deviations together: one record per deviation, so each defect keeps one string
+                return True, (["resolve:" + SWITCH_MECH[x] for x in sw], prim), prim
+        return True, ([f"resolve:{dk}:unexplained"], prim), prim
 
 
 def has_quotable(R: RR.RRouter) -> bool:
@@ -719,12 +720,13 @@ async def run_table(W: World, rec, stratum, spec, targets, all_methods=False, sa
                 if nontrivial:
                     rec.sig("outcome", (real_key[0], prim.kind, len(prim.apps), len(real_key[2]) if real_key[0] == 200 else len(real_key[1]) if real_key[0] == 405 else 0))
                 if viol is not None:
-                    mech, prim = viol
-                    rec.violation(
-                        mech,
-                        f"[{stratum}] {diff_kind(prim, real_key)}: {m} {t!r} host={h}: aiohttp={real_desc} reference={prim.as_dict()} table={spec}",
-                        {"stratum": stratum, "op": "resolve", "table": spec, "target": t, "method": m, "host": h},
-                    )
+                    mechs, prim = viol
+                    for mech in mechs:
+                        rec.violation(
+                            mech,
+                            f"[{stratum}] {diff_kind(prim, real_key)}: {m} {t!r} host={h}: aiohttp={real_desc} reference={prim.as_dict()} table={spec}",
+                            {"stratum": stratum, "op": "resolve", "table": spec, "target": t, "method": m, "host": h},
+                        )
                 elif sample_every and nontrivial and rec.evaluations % sample_every == 0:
                     rec.sample({"stratum": stratum, "table": spec, "target": t, "method": m, "host": h, "outcome": real_desc})
 
@@ -1092,7 +1094,8 @@ def replay(witness, rec):
                 _, viol, prim = J.judge(witness["method"], ps, witness["host"], real_key)
                 rec.case(witness, True)
                 if viol:
-                    rec.violation(viol[0], f"aiohttp={real_desc} reference={prim.as_dict()}", witness)
+                    for mech in viol[0]:
+                        rec.violation(mech, f"aiohttp={real_desc} reference={prim.as_dict()}", witness)
 
             run(one())
         elif op == "urlfor":
